@@ -42,6 +42,7 @@ def split_cases(events):
 
 def run_time(ctx, replay, key, mode, mc_quick, mc_thorough, rule, assumptions):
     drv = ctx.build_harness()
+    crash = None
     trace = ctx.path(mode + ".ndjson")
     if replay:
         with open(replay) as f:
@@ -79,8 +80,23 @@ def run_time(ctx, replay, key, mode, mc_quick, mc_thorough, rule, assumptions):
         if mode == "c17":
             from c10 import build_binary
             env["VERIF_DISPLAY_BIN"] = build_binary(ctx, "displayrtcm3")
-        ctx.drive(drv, ["time", mode, trace, bfile], env=env)
-    events = vlib.read_ndjson(trace)
+        r = ctx.drive(drv, ["time", mode, trace, bfile], env=env, ok_codes=(0, 1, 2))
+        if r.returncode != 0:
+            crash = ctx.library_panic(r)
+            if not crash:
+                raise vlib.Inconclusive("driver failed rc=%d:\n%s" % (r.returncode, r.stderr[-3000:]))
+    events = []
+    for line in open(trace):
+        line = line.strip()
+        if line.endswith("}"):
+            try:
+                events.append(json.loads(line))
+            except ValueError:
+                pass
+    if not events and crash:
+        # nothing of the trace reached the disk before the process died inside the library: the crash itself is the finding
+        ctx.violation(dict(event="crash", kind="library-panic", what=crash["what"][:80]), dict(crash=crash))
+        return ctx.finish(level="model_checking", rule=rule, assumptions=assumptions, exhaustive=False)
     if not events:
         raise vlib.Inconclusive("driver produced no events")
     res = ctx.tlc_trace("Time_Trace", "Time_Trace.cfg", trace, timeout=1200)
@@ -114,6 +130,9 @@ def run_time(ctx, replay, key, mode, mc_quick, mc_thorough, rule, assumptions):
         else:
             rec["kind"] = "illegal-timestamp-not-an-error"
         ctx.violation(rec, dict(events=evs, rejected_event_index=i - case[0] + 1))
+    if crash:
+        # the process died inside the library while a history was being played (a goroutine the library starts itself)
+        ctx.violation(dict(event="crash", kind="library-panic", what=crash["what"][:80]), dict(crash=crash, last_events=events[-12:]))
     drift = res["badk"].get("drift", [])
     ctx.extra["model_drift"] = dict(events=len(drift), first=events[drift[0] - 1]) if drift else None
     if drift:
